@@ -128,7 +128,7 @@ def run_to_end(s, max_rounds=12):
         s.apply(acts[0])
 
 
-def replay_then_resume(prog, sched, ext_menu=(), timeout_probe=False):
+def replay_then_resume(prog, sched, ext_menu=(), timeout_probe=False, resumes=1, reserialize=False):
     """Execute `sched` on a fresh system, serialise the context through JSON, resume it with Context.from_dict on the
     same workflow object and drive the resumed run to its end.  Returns the whole trace (runs 1 and 2)."""
     import json as _json
@@ -137,18 +137,30 @@ def replay_then_resume(prog, sched, ext_menu=(), timeout_probe=False):
         s.start("s0")
         for c in sched:
             s.apply(c)
-        try:
-            snap = s.snapshot()
-            s.log({"e": "snapshot", "ok": True, "is_running": bool(snap.get("is_running"))})
-        except Exception as ex:  # noqa: BLE001
-            s.log({"e": "snapshot", "ok": False, "err": type(ex).__name__ + ":" + str(ex)[:120], "is_running": False})
-            return s.trace
-        try:
-            s.resume_from(snap)
-            s.log({"e": "resumed", "ok": True})
-        except Exception as ex:  # noqa: BLE001
-            s.log({"e": "resumed", "ok": False, "err": type(ex).__name__ + ":" + str(ex)[:120]})
-            return s.trace
+        for _k in range(max(1, resumes)):     # resumes > 1: serialised again right after a resume, before anything else happens
+            try:
+                early = getattr(s, "early_snap", None) if _k > 0 else None
+                s.snap_at_start = resumes > 1
+                s.early_snap = None
+                # the second snapshot is the one taken right after run(ctx=...) returned, before the resumed loop executed
+                # anything (a server that checkpoints what it has just loaded)
+                snap = early if early is not None else s.snapshot()
+                s.log({"e": "snapshot", "ok": True, "is_running": bool(snap.get("is_running"))})
+                if reserialize:
+                    # the context is loaded and serialised again WITHOUT being run in between (a store migration, a copy):
+                    # what the first load could not restore yet (waiter requirements) must not get lost on the way
+                    from workflows.context import Context as _Ctx
+                    snap = _json.loads(_json.dumps(_Ctx.from_dict(s.wf, snap).to_dict()))
+                    s.log({"e": "reserialized", "ok": True})
+            except Exception as ex:  # noqa: BLE001
+                s.log({"e": "snapshot", "ok": False, "err": type(ex).__name__ + ":" + str(ex)[:120], "is_running": False})
+                return s.trace
+            try:
+                s.resume_from(snap)
+                s.log({"e": "resumed", "ok": True})
+            except Exception as ex:  # noqa: BLE001
+                s.log({"e": "resumed", "ok": False, "err": type(ex).__name__ + ":" + str(ex)[:120]})
+                return s.trace
         if timeout_probe and prog.get("timeout") is not None and s.outcome is None and s.rig.open_gates():
             # leave the resumed bodies running and let the workflow timeout elapse: the resumed run must time out too
             t_res = s.now_ms()
